@@ -23,6 +23,9 @@ CHECKS = {
  "C15": ("Differential exhaustive exploration, implementation against itself: for every base program (BFS universe plus a literal-rich pool) and every occurrence of a literal or query (and every query prefix) in it, the occurrence is abstracted into a let at each legal scope (file, rule, enclosing block), with second references before/after, unused variables at every scope, a shadowing outer definition, and the inverse for parameterised rules with literal and query arguments; statuses of the original rules are compared on every document.",
          "The documented exception (emptiness test on a bare variable / filter result) is excluded. A disagreement is attributed to the recorded finding K-VAR only when the reference model of exactly that pinned behaviour predicts the observation.",
          "exhaustive enumeration of abstraction edges over a BFS program universe, differential oracle on the implementation"),
+ "C06": ("Exhaustive enumeration of invocation states: every sequence of 1..2 (quick) / 1..3 (thorough) rules files over six kinds x every sequence of data files over four kinds x sixteen invocation modes (plain, verbose, print-json, structured json/yaml/junit/sarif, payload, stdin, directories, missing paths), and for `test` every pair of test-file kinds x rules kinds x formats x layouts; each state is executed through CfnGuard::execute in-process and a fixed fraction as a real child process of the repository's main.rs; the exit status must lie in the closed-form allowed set transcribed from the property.",
+         "Trusted base: the closed-form allowed_exit function; the in-process seam (same code path as main.rs minus process::exit) cross-checked against the real binary on every 23rd (quick) / 4th (thorough) state.",
+         "exhaustive enumeration of file-kind sequences x invocation modes against a closed-form exit-code reference"),
 }
 PENDING_REASON = "check under construction in this round (design in DESIGN.md section 5); not claimed until its quick tier runs clean on the unchanged tree"
 ALL = ["C%02d" % i for i in range(1, 20)]
